@@ -56,11 +56,20 @@ func c08Raw(c *core.Ctx, in c08Case, key [16]byte, payload []byte, mk func() c08
 	if in.Op == "mac" {
 		var mac []byte
 		var err error
+		if c08Valid(in) && payload != nil {
+			// valid calls get the message as a window into a larger buffer (spare capacity, canaries around it)
+			guardReset()
+			payload = guardIn(payload)
+		}
 		pi := core.Try(func() {
 			mac, err = security.NASMacCalculate(uint8(in.Alg), key, in.Count, uint8(in.Bearer), uint8(in.Dir), payload)
 		})
 		if pi != nil {
 			fail(pi.Key(), "panics: "+pi.Msg)
+			return
+		}
+		if w := guardCheck(); w != "" {
+			fail("modifies-arguments", w)
 			return
 		}
 		if !bytes.Equal(payload, orig) || key != key0 {
@@ -102,6 +111,11 @@ func c08Raw(c *core.Ctx, in c08Case, key [16]byte, payload []byte, mk func() c08
 	// encrypt
 	buf := make([]byte, len(payload))
 	copy(buf, payload)
+	guarded := c08Valid(in) && !in.Nil
+	if guarded {
+		guardReset()
+		buf = guardIn(payload)
+	}
 	if in.Nil {
 		buf = nil
 	}
@@ -116,6 +130,17 @@ func c08Raw(c *core.Ctx, in c08Case, key [16]byte, payload []byte, mk func() c08
 	if key != key0 {
 		fail("modifies-arguments", "the key was modified")
 		return
+	}
+	if guarded {
+		// only the surroundings of the payload are compared (the payload itself is ciphered in place)
+		keep := append([]byte{}, buf...)
+		copy(buf, orig)
+		w := guardCheck()
+		copy(buf, keep)
+		if w != "" {
+			fail("writes-outside-payload", w)
+			return
+		}
 	}
 	if !c08Valid(in) {
 		if err == nil {
